@@ -5,6 +5,7 @@
 #include <cstddef>
 #include <cstdlib>
 #include <pthread.h>
+#include <dlfcn.h>
 #include <semaphore.h>
 extern "C" {
 void *__libc_malloc(size_t);
@@ -42,9 +43,19 @@ int __real_sem_wait(sem_t *);
 int __wrap_sem_wait(sem_t *s) { if (g_armed) g_locks++; return __real_sem_wait(s); }
 int __real___cxa_guard_acquire(void *);
 int __wrap___cxa_guard_acquire(void *g) { if (g_armed) g_locks++; return __real___cxa_guard_acquire(g); }
+// --wrap only redirects the references of the objects linked here; locks taken inside shared libraries (libstdc++'s locale
+// mutex, for one) go through their own PLT, which resolves to a definition in the executable: interpose the mutex entry
+// point as well (the next definition in search order is glibc's)
+static int (*g_next_mutex_lock)(pthread_mutex_t *) = nullptr;
+int pthread_mutex_lock(pthread_mutex_t *m) {
+  if (!g_next_mutex_lock) g_next_mutex_lock = (int (*)(pthread_mutex_t *))dlsym(RTLD_NEXT, "pthread_mutex_lock");
+  if (g_armed) g_locks++;
+  return g_next_mutex_lock(m);
+}
 }
 
 #include "common/ptree.hpp"
+#include <locale>
 #include "common/msggen.hpp"
 #include "common/bundlegen.hpp"
 #include <rtosc/thread-link.h>
@@ -93,7 +104,10 @@ struct Case {
   }
 };
 const char *vf_property() { return "C03"; }
-void vf_init() {}
+// the process runs with a global C++ locale that is not the classic one (an application facet added): library code that
+// consults the global locale on the message path has to lock it
+struct VerifPunct : std::numpunct<char> {};
+void vf_init() { std::locale::global(std::locale(std::locale::classic(), new VerifPunct)); }
 
 static mg::Msg app_msg() {
   static const char *names[] = {"/vi", "/vf", "/vt", "/vc", "/arr2", "/farr1", "/str", "/opt", "/nonexistent", "/arr9", "/v", "/big", "/opt"};
